@@ -64,12 +64,18 @@ fn drop_step_raw() {
     let size: usize = kani::any();
     kani::assume(addr % cffi::PAGE == 0);
     let via_build_raw: bool = kani::any();
+    let with_file: bool = kani::any();
     let prot: i32 = kani::any();
     let flags: i32 = kani::any();
     // SAFETY: the pointer is never dereferenced
     let r = unsafe {
         if via_build_raw {
             MmapRegion::<()>::build_raw(addr as *mut u8, size, prot, flags)
+        } else if with_file {
+            // an external mapping OF A FILE: the file offset is recorded, ownership stays with the caller
+            use std::os::fd::FromRawFd;
+            let fo = vm_memory::FileOffset::new(std::fs::File::from_raw_fd(11), kani::any());
+            MmapRegionBuilder::<()>::new(size).with_raw_mmap_pointer(addr as *mut u8).with_file_offset(fo).build()
         } else {
             MmapRegionBuilder::<()>::new(size).with_raw_mmap_pointer(addr as *mut u8).build()
         }
@@ -87,6 +93,7 @@ fn drop_step_raw() {
     }
     kani::cover!(addr == 0);
     kani::cover!(addr != 0 && via_build_raw);
+    kani::cover!(!via_build_raw && with_file);
 }
 
 /// two owned regions built through the public constructor, symbolic host addresses and sizes.  Maps are assembled with
